@@ -936,10 +936,15 @@ def harden_streams(tier, rng):
                     p = list(good); p[7] = 1; p[8] = k; cases.append((1625, [raw + rbytes(rng, rng.randrange(3)), p]))
             if izn is None and fen is None:
                 p = list(good); p[5] = 1; p[6] = 2; p[7] = 1; p[8] = 2; cases.append((1627, [raw, p]))
-    for izn, fen in ((65000, None), (None, 65000), (32000, 33000), (65519, 2), (2, 65517)):
+    for izn, fen in ((65000, None), (None, 65000), (32000, 33000), (-1, 2), (2, -1)):
+        rule = rng.choice([0, 7])
+        room = 65536 - 7 - (1 + (2 if rule < 3 else 0) + 3) - 4          # what the largest frame leaves for the two zones
+        izn = room - fen if izn == -1 else izn
+        fen = room - izn if fen == -1 else fen
         iz = [0] if izn is None else [1] + [0x11] * izn
         fe = [0] if fen is None else [1] + [0x22] * fen
-        a, raw, ft, tr = sized_frame(rng, rng.choice([0, 7]), 3, iz, [1, 1, 2, 3, 4], fe, vcf_n=0)
+        a, raw, ft, tr = sized_frame(rng, rule, 3, iz, [1, 1, 2, 3, 4], fe, vcf_n=0)
+        assert len(raw) <= 65536 and max(raw) < 256
         cases.append((1625, [raw, props_for(a, ft, len(raw))]))
         cases.append((1623, a + [[0, ft]]))
     yield "frame_zone_size_combinations", "exact", cases
